@@ -104,7 +104,7 @@ func coqBackend(kind string) string {
 
 const (
 	skAppend = "SkAppend" // callback(append(scheme(raw)))  -- newChainStore without the metrics wrapper
-	skFollow = "SkFollow" // callback(scheme(raw))          -- StartFollowChain
+	skFollow = "SkFollow" // callback(scheme(raw))          -- what StartFollowChain built before it got the append store; hand-built here to keep that branch of the model validated
 )
 
 func buildStack(ctx context.Context, raw chain.Store, sch *crypto.Scheme, sk string) (beacon.CallbackStore, error) {
